@@ -213,6 +213,11 @@ impl Feig {
             };
             match response {
                 sequences::PartialReversalResponse::PartialReversalAbort(data) => {
+                    // The answer to the query carries ErrorPreAuthorization; any other
+                    // code is an abort of the query itself.
+                    if data.error != zvt::constants::ErrorMessages::ErrorPreAuthorization as u8 {
+                        bail!(zvt::ZVTError::Aborted(data.error))
+                    }
                     // The 0xFFFF means no pending transactions.
                     let Some(receipt_no) = data.receipt_no else {
                         return Ok(vec![]);
